@@ -48,12 +48,21 @@ PairSeqs ==
   \cup {<<K("if"), Ia, BinOps[i], Ib, K("then"), Ic, K("else"), Id, BinOps[j], Ie>> : i, j \in 1..Len(BinOps)}
   \cup {<<Ia, BinOps[i], K("("), Ib, BinOps[j], Ic, K(")")>> : i, j \in 1..Len(BinOps)}
   \cup {<<Ia, BinOps[i], Ib, BinOps[j], Ic, BinOps[k], Id>> : i, j, k \in {1, 3, 10, 12, 14, 15, 18}}
+  \* every built-in function keyword, both spellings: kw ( a )  and  kw ( a ) . k
+  \cup UNION { { <<K(kw), K("("), Ia, K(")")>>, <<K(kw), K("("), Ia, K(")"), K("."), T("IDENT", "k")>>, <<K(kw), Ia>>, <<K("-"), K(kw), K("("), Ia, K(")")>> }
+                : kw \in {"int", "float", "dec", "date_time", "datetime", "duration", "is_some", "some", "is_none", "none", "to_upper", "uppercase",
+                           "to_lower", "lowercase", "trim", "round", "floor", "fract", "year", "month", "week", "day", "hour", "minute", "second"} }
+  \* identifiers that are reserved words of the library but not tokens of the grammar, or prefixes of literal tokens
+  \cup UNION { { <<n>>, <<n, K("("), Ia, K(")")>>, <<Ia, K("."), n>>, <<K(":"), n>>, <<K("{"), n, K(":"), Ia, K("}")>>, <<n, K("."), T("INDEX", "0")>>,
+                  <<n, K("("), n, K(")")>>, <<K("if"), n, K("then"), n, K("else"), n>> }
+                : n \in {T("IDENT", "key"), T("IDENT", "val"), T("IDENT", "starts"), T("IDENT", "ends"), T("IDENT", "facts"), T("IDENT", "inty"),
+                         T("IDENT", "i"), T("IDENT", "f"), T("IDENT", "d"), T("IDENT", "e"), T("IDENT", "x0"), T("IDENT", "nonempty"), T("IDENT", "Round")} }
 
 Init == IF Alpha = "pairs" THEN seq \in {<<>>} \cup {<<BinOps[i]>> : i \in 1..Len(BinOps)} ELSE seq = <<>>
 \* in pairs mode the (dummy) one-token states only spread the templates over the workers
 Next == IF Alpha = "pairs"
         THEN /\ Len(seq) = 1
-             /\ \E s \in {x \in PairSeqs : x[2] = seq[1] \/ (x[2].c \notin {BinOps[i].c : i \in 1..Len(BinOps)} /\ seq[1].c = "and")} : seq' = s
+             /\ \E s \in {x \in PairSeqs : (Len(x) >= 2 /\ x[2] = seq[1]) \/ ((Len(x) < 2 \/ x[IF Len(x) >= 2 THEN 2 ELSE 1].c \notin {BinOps[i].c : i \in 1..Len(BinOps)}) /\ seq[1].c = "and")} : seq' = s
         ELSE /\ Len(seq) < N /\ Viable
              /\ \E i \in 1..Len(Alphabet) : seq' = Append(seq, Alphabet[i])
 
